@@ -2,6 +2,9 @@
 emission classes (driven through the real Component/Source) and the Lean model, parsed results."""
 from __future__ import annotations
 
+import json
+
+from harness import core
 from harness.core import LeanDriver
 
 KINDS = [  # (repairable, intermittent, activeDur, inactiveDur)
@@ -1064,3 +1067,10 @@ def hardening_stages(ctx, results, per_case):
     copy_stage(ctx, per_case)
     calendar_stage(ctx, results, per_case)
     marker_name_stage(ctx, results, per_case)
+
+
+
+def tie_stage(ctx):
+    """layer 3 for the emission classes (see harness/props/_tie.py)"""
+    from harness.props import _tie
+    return _tie.emission_tie(ctx)
